@@ -306,7 +306,10 @@ func checkC04(c C04Case, r *Rec) *Violation {
 				r.Class("library-context:caller-fetcher-embedding-the-map-fetcher")
 			}
 			if allSupplied {
-				ctx := eval.NewCtxFromVars(cc, supplied)
+				ctx, v := safeNewCtx("C04", cc, supplied)
+				if v != nil {
+					return v
+				}
 				ot := Safe(func() (eval.Value, error) { return e.TryEval(ctx) })
 				oe := Safe(func() (eval.Value, error) { return e.Eval(eval.NewCtxFromVars(cc, supplied)) })
 				if !SameOutcomeLoose(ot, oe) {
@@ -314,7 +317,10 @@ func checkC04(c C04Case, r *Rec) *Violation {
 				}
 				r.Class("library-context:all-supplied")
 			} else if mapSelected {
-				ctx := eval.NewCtxFromVars(cc, supplied)
+				ctx, v := safeNewCtx("C04", cc, supplied)
+				if v != nil {
+					return v
+				}
 				ot := Safe(func() (eval.Value, error) { return e.TryEval(ctx) })
 				hf := &Fetcher{Vars: supplied, Avail: map[string]bool{}, Log: &Log{}}
 				for n := range supplied {
